@@ -16,26 +16,26 @@ NA_REASONS = {
 }
 
 TECHNIQUE = {
-    "C01": 'CFG must-pass-through + call-graph reachability + exhaustive index-table evaluation against the hexahedron convention (incl. blockMesh edgeGrading order) + abstract evaluation of the whole consistency chain on a symbolic two-block model + abstract evaluation of WireChopManager.grade with graded neighbours + anti-aligned coincident wires in the consistency models',
-    "C02": 'set-iteration order-sensitivity classification + abstract evaluation of the fix-point loop over all insertion orders of a block chain (schedule enumeration on the AST interpreter) + progress-flag termination argument + determinism-source taint + isolated blocks and the repository-evaluated count in the schedule model',
-    "C03": 'name-driven registry/signature agreement + finite closure over relation names + inversion completeness + dimension (units) type check + tolerance abstract values of the unit-ratio switches + sibling brackets + domain-repair (clamped logarithm) analysis + lazy-cache discipline + memoisation of later-changed state + solver tolerance and rounding checks + abstract run of every relation at non-positive ratios + rounding form of every count result + exact rational evaluation of closed-form early returns against the relation residual and of the single-cell case + integral count',
-    "C04": 'abstract evaluation of aligned/inverted copies with symbolic Chop records + copy_preserving/invert per preserve literal + ordering on CFG + edgeGrading slot order + is_simple/format_single per manager class + stale-length model of grade() for both wire-manager classes + rounding check',
-    "C05": 'CFG lookup-before-create + who-may-construct/who-may-write + tolerance abstract values (absolute vs relative, signed vs magnitude) + abstract evaluation of VertexList.add over insertion scenarios + exhaustive corner->patch table evaluation + merge roles + projections in the insertion-sequence model + face-object identity of patches under invert / mirror + private label lists of shared vertices + bit-for-bit coordinate comparison scan',
-    "C06": 'CFG section ordering in Mesh.write + exhaustive side/corner table evaluation + writer/reader index agreement + abstract evaluation of assemble/patch state + clear/assemble effect pairing + edgeGrading slot order + length-snapshot analysis + VTK condition + empty-patch evaluation + class-state and side-addressing rules + assemble on an assembled mesh + projected-once sequences + private label lists',
-    "C07": 'registry/Literal/class-kind agreement + CFG dedup ordering + abstract evaluation of the 12 emitted beams, EdgeList.add and the curve-edge parameter order + tolerance abstract values of the edge-validity tests + shared-edge-data and memoisation analyses + exact rational evaluation of arc_from_theta (reflex sectors) + beam list with shared payloads + per-kind reverse semantics + neighbour-linking run for curves shared between blocks + homogeneity degree of the collinearity test + half-turn sectors with an exact infinity',
-    "C08": "abstract-domain analysis of inverse-trigonometric arguments + exact identities in a rational-function domain (circumcentre) + parity (sign flow) + abstract evaluation of argument pairing and of the centre adjustment on a toy model + affine kinds + exact sign evaluation of the reflex decision on rational circle configurations + tolerance abstract values of the validity tests + memoisation analysis + exact rational evaluation of arc_from_theta for minor and reflex sectors + edge-end order + argument mutation + homogeneity degree of the collinearity test + half-turn sectors with an exact infinity + beam list with shared payloads",
-    "C09": 'interprocedural may-mutate/alias effect analysis + affine origin balance + override-bypass (MRO) check + polynomial-domain normalisation of the reflection matrix + shared-part and closure-capture analyses + sense-of-rotation parity of angle-and-axis edges (axis sign x angle sign x traversal direction vs determinant) + length-snapshot, live-array and private-coordinate analyses + exact evaluation of CircleCurve.mirror + loop-alias, average-axis, unit-axis and returned-closure analyses + attributes updated twice along a super() chain + flips over all axes + unmapped arc axis',
-    "C10": 'exhaustive abstract evaluation of face permutations (incl. history independence), edge map and side addressing against the hexahedron convention + shared-part analysis + corner/side table evaluation + corner signatures (position and projections) under face permutations + beam list with shared payloads + candidate subsets in the nearest-corner model + private label lists + empty-patch evaluation',
-    "C11": 'exhaustive quad-map orientation/conformity check + union-find chop-coverage analysis over literal sketches + chain-source consistency + guard evaluation against sketch facts + inverse-trig domain and sign-flow analyses + abstract evaluation of add_edges over generated point rings (arc ends, centres, completeness) + moved-once and transform-routing analyses + direction reversal in every chain() + axis-suffix agreement of product terms + reflection matrix + argument mutation + abstract run of the joint constructors (cusp angles modulo pi) + number-or-vector dispatch + bit-for-bit coordinate comparison scan + grid roles + non-commuting transformation lists in stacks',
-    "C12": 'clear/assemble container and state pairing in both directions + idempotence of grade() + abstract evaluation of assemble/backport + alias analysis of coordinate stores + assembled state produced by running the library assemble() abstractly, late deletes + relative-closeness scan of the round trip + own containers in clear() + state of a finished grading pass at the start of the next + assemble on an assembled mesh + private label lists',
-    "C13": 'CFG snapshot/restore pairing on rollback and exception paths + who-writes-points ownership + backport on every exit + affine kinds + linear forms of links + provenance of the rollback quantities + in-place store dtype analysis + copy-back table evaluation + exact evaluation of SymmetryLink + grid quality sum + reflection matrix + sensitivity probe against the clamp bounds + absolute matching of clamps to grid points + accumulation of links + exact evaluation of RadialClamp + alias-snapshot scan + captured-array aliasing',
-    "C14": 'abstract evaluation of the edge set and side tables against the hexahedron convention + face-symmetry and cache analyses + inverse-trig domain abstract values + point-list aware affine kinds of the quality kernels + monotonicity abstract domain for the aspect-ratio term + index-provenance (own side index) check + scale-free guard rule + clip-before-normalisation detection + homogeneity degree of every inverse-trigonometric argument + memoisation analysis',
-    "C15": 'abstract evaluation of smooth()/fix_* on symbolic and 1-D float grid models + edge-only neighbour table + boundary table + backport table agreement + drifting sweep-count model + index 0 scenarios + rounding check + clamped/linked points in the copy-back + neighbour binding over relative orientations + grid ownership + absolute matching of fixed points',
-    "C16": 'backward slice (knot dependence) + abstract evaluation of end-parameter pairing through the edge-data layer + interface completeness + closest-parameter search evaluation + stale-alias, None-vs-zero and memoisation analyses + lazy-cache discipline + returned closures, in-place updates of views, unit axis + stateless queries + three-component lengths + invalidation order',
-    "C17": 'interprocedural may-mutate analysis + position-writer ownership + linear-form evaluation of links + affine kinds + polynomial-domain reflection matrix + dead-parameter and inverse-trig domain analyses + grid-write ownership + in-place store dtype analysis + exact rational evaluation of SymmetryLink and angle_between + exact rational evaluation of RadialClamp for non-unit normals + captured-array aliasing of every kept value + alias-snapshot scan + absolute matching of links + accumulation of links',
-    "C18": 'abstract evaluation of the finders on 1-D models + tolerance abstract values + unit-direction analysis of projected lengths + exhaustive corner-table evaluation + signed-basis algebra + triangle-partition evaluation + affine kinds + stale-alias analysis + on-demand cache analysis of the finders + greedy side priority + flag identity tests + private viewpoint',
-    "C19": 'abstract evaluation of grid construction, slicing (incl. purity), core/shell partition, merged sketch roles, assemble/backport locality + abstract evaluation of Mesh.delete + constructor-chain analysis (addressing members read existing attributes) + late deletes in backport + mirrored shapes in the partition model + non-commuting lists in the stack chain + number-or-vector dispatch + argument mutation',
-    "C20": 'sign-domain analysis of one-sided tolerance and magnitude guards + two-sided range guards + abstract evaluation of guards on both sides of each boundary + guard table (CFG dominance) + assemble/clear state pairing + abstract evaluation of Face edge-list and shell-connectivity guards + boundary evaluation of guards whose message demands a strict relation + projection index, chop axis and NaN scenarios + index guards of remove_edges / unchop / get_slice + homogeneity degree of the perpendicularity guards + Point shape scenarios',
+    "C01": 'CFG must-pass-through + call-graph reachability + exhaustive index-table evaluation against the hexahedron convention (incl. blockMesh edgeGrading order) + abstract evaluation of the whole consistency chain on a symbolic two-block model + abstract evaluation of WireChopManager.grade with graded neighbours + anti-aligned coincident wires in the consistency models + propagation run that must keep the user\'s own chops',
+    "C02": 'set-iteration order-sensitivity classification + abstract evaluation of the fix-point loop over all insertion orders of a block chain (schedule enumeration on the AST interpreter) + progress-flag termination argument + determinism-source taint + isolated blocks and the repository-evaluated count in the schedule model + \'defined\' evaluated over all four wires of a direction',
+    "C03": 'name-driven registry/signature agreement + finite closure over relation names + inversion completeness + dimension (units) type check + tolerance abstract values of the unit-ratio switches + sibling brackets + domain-repair (clamped logarithm) analysis + lazy-cache discipline + memoisation of later-changed state + solver tolerance and rounding checks + abstract run of every relation at non-positive ratios + rounding form of every count result + exact rational evaluation of closed-form early returns against the relation residual and of the single-cell case + integral count + non-finite ratio scenarios + one-cell reversal agreement of the two size relations',
+    "C04": 'abstract evaluation of aligned/inverted copies with symbolic Chop records + copy_preserving/invert per preserve literal + ordering on CFG + edgeGrading slot order + is_simple/format_single per manager class + stale-length model of grade() for both wire-manager classes + rounding check + mixed-alignment copy scenarios + memoised views of element attributes',
+    "C05": 'CFG lookup-before-create + who-may-construct/who-may-write + tolerance abstract values (absolute vs relative, signed vs magnitude) + abstract evaluation of VertexList.add over insertion scenarios + exhaustive corner->patch table evaluation + merge roles + projections in the insertion-sequence model + face-object identity of patches under invert / mirror + private label lists of shared vertices + bit-for-bit coordinate comparison scan + semantic writer check of slave vertices + deleted-operation skip',
+    "C06": 'CFG section ordering in Mesh.write + exhaustive side/corner table evaluation + writer/reader index agreement + abstract evaluation of assemble/patch state + clear/assemble effect pairing + edgeGrading slot order + length-snapshot analysis + VTK condition + empty-patch evaluation + class-state and side-addressing rules + assemble on an assembled mesh + projected-once sequences + private label lists + side identity under re-orientation',
+    "C07": 'registry/Literal/class-kind agreement + CFG dedup ordering + abstract evaluation of the 12 emitted beams, EdgeList.add and the curve-edge parameter order + tolerance abstract values of the edge-validity tests + shared-edge-data and memoisation analyses + exact rational evaluation of arc_from_theta (reflex sectors) + beam list with shared payloads + per-kind reverse semantics + neighbour-linking run for curves shared between blocks + homogeneity degree of the collinearity test + half-turn sectors with an exact infinity + EdgeList driven through its own constructor and add + arc sense + unit shear direction',
+    "C08": "abstract-domain analysis of inverse-trigonometric arguments + exact identities in a rational-function domain (circumcentre) + parity (sign flow) + abstract evaluation of argument pairing and of the centre adjustment on a toy model + affine kinds + exact sign evaluation of the reflex decision on rational circle configurations + tolerance abstract values of the validity tests + memoisation analysis + exact rational evaluation of arc_from_theta for minor and reflex sectors + edge-end order + argument mutation + homogeneity degree of the collinearity test + half-turn sectors with an exact infinity + beam list with shared payloads + scaling degree of the arc-length collinearity guard + None-test discipline",
+    "C09": 'interprocedural may-mutate/alias effect analysis + affine origin balance + override-bypass (MRO) check + polynomial-domain normalisation of the reflection matrix + shared-part and closure-capture analyses + sense-of-rotation parity of angle-and-axis edges (axis sign x angle sign x traversal direction vs determinant) + length-snapshot, live-array and private-coordinate analyses + exact evaluation of CircleCurve.mirror + loop-alias, average-axis, unit-axis and returned-closure analyses + attributes updated twice along a super() chain + flips over all axes + unmapped arc axis + arc sense over unmapped axes + unit shear direction and sign + remembered points kept current',
+    "C10": 'exhaustive abstract evaluation of face permutations (incl. history independence), edge map and side addressing against the hexahedron convention + shared-part analysis + corner/side table evaluation + corner signatures (position and projections) under face permutations + beam list with shared payloads + candidate subsets in the nearest-corner model + private label lists + empty-patch evaluation + patch normal symmetric over four corners + nearest-sort model over candidate subsets',
+    "C11": 'exhaustive quad-map orientation/conformity check + union-find chop-coverage analysis over literal sketches + chain-source consistency + guard evaluation against sketch facts + inverse-trig domain and sign-flow analyses + abstract evaluation of add_edges over generated point rings (arc ends, centres, completeness) + moved-once and transform-routing analyses + direction reversal in every chain() + axis-suffix agreement of product terms + reflection matrix + argument mutation + abstract run of the joint constructors (cusp angles modulo pi) + number-or-vector dispatch + bit-for-bit coordinate comparison scan + grid roles + non-commuting transformation lists in stacks + circle-test symmetry + shear sign + non-commuting transform lists through stacks + scaling degree of the coplanarity guard',
+    "C12": 'clear/assemble container and state pairing in both directions + idempotence of grade() + abstract evaluation of assemble/backport + alias analysis of coordinate stores + assembled state produced by running the library assemble() abstractly, late deletes + relative-closeness scan of the round trip + own containers in clear() + state of a finished grading pass at the start of the next + assemble on an assembled mesh + private label lists + writers proven read-only + patch state and geometry re-declaration across clear/assemble',
+    "C13": 'CFG snapshot/restore pairing on rollback and exception paths + who-writes-points ownership + backport on every exit + affine kinds + linear forms of links + provenance of the rollback quantities + in-place store dtype analysis + copy-back table evaluation + exact evaluation of SymmetryLink + grid quality sum + reflection matrix + sensitivity probe against the clamp bounds + absolute matching of clamps to grid points + accumulation of links + exact evaluation of RadialClamp + alias-snapshot scan + captured-array aliasing + exact rotation links + change detection against aliases',
+    "C14": 'abstract evaluation of the edge set and side tables against the hexahedron convention + face-symmetry and cache analyses + inverse-trig domain abstract values + point-list aware affine kinds of the quality kernels + monotonicity abstract domain for the aspect-ratio term + index-provenance (own side index) check + scale-free guard rule + clip-before-normalisation detection + homogeneity degree of every inverse-trigonometric argument + memoisation analysis + row-wise norms and centres + order-resolved re-assignments in the arccos-argument classification',
+    "C15": 'abstract evaluation of smooth()/fix_* on symbolic and 1-D float grid models + edge-only neighbour table + boundary table + backport table agreement + drifting sweep-count model + index 0 scenarios + rounding check + clamped/linked points in the copy-back + neighbour binding over relative orientations + grid ownership + absolute matching of fixed points + identity of the grid\'s point array + live back-port + slit / baffle boundary scenarios',
+    "C16": 'backward slice (knot dependence) + abstract evaluation of end-parameter pairing through the edge-data layer + interface completeness + closest-parameter search evaluation + stale-alias, None-vs-zero and memoisation analyses + lazy-cache discipline + returned closures, in-place updates of views, unit axis + stateless queries + three-component lengths + invalidation order + stateless queries + invalidation ordered last',
+    "C17": 'interprocedural may-mutate analysis + position-writer ownership + linear-form evaluation of links + affine kinds + polynomial-domain reflection matrix + dead-parameter and inverse-trig domain analyses + grid-write ownership + in-place store dtype analysis + exact rational evaluation of SymmetryLink and angle_between + exact rational evaluation of RadialClamp for non-unit normals + captured-array aliasing of every kept value + alias-snapshot scan + absolute matching of links + accumulation of links + exact rotation and slide of clamps with solved parameters',
+    "C18": 'abstract evaluation of the finders on 1-D models + tolerance abstract values + unit-direction analysis of projected lengths + exhaustive corner-table evaluation + signed-basis algebra + triangle-partition evaluation + affine kinds + stale-alias analysis + on-demand cache analysis of the finders + greedy side priority + flag identity tests + private viewpoint + exact view frame on rational boxes + module-wide scaling degrees + acceptance by distance',
+    "C19": 'abstract evaluation of grid construction, slicing (incl. purity), core/shell partition, merged sketch roles, assemble/backport locality + abstract evaluation of Mesh.delete + constructor-chain analysis (addressing members read existing attributes) + late deletes in backport + mirrored shapes in the partition model + non-commuting lists in the stack chain + number-or-vector dispatch + argument mutation + container sharing between copies + private coordinates + mirrored partition',
+    "C20": 'sign-domain analysis of one-sided tolerance and magnitude guards + two-sided range guards + abstract evaluation of guards on both sides of each boundary + guard table (CFG dominance) + assemble/clear state pairing + abstract evaluation of Face edge-list and shell-connectivity guards + boundary evaluation of guards whose message demands a strict relation + projection index, chop axis and NaN scenarios + index guards of remove_edges / unchop / get_slice + homogeneity degree of the perpendicularity guards + Point shape scenarios + Side / Elbow.chain scenarios + scaling degree of the coplanarity guard + chained strictness guards',
 }
 
 
